@@ -57,7 +57,7 @@ _REG = [_reg("pair", 400), _reg("trio", 250), _reg("vault", 400), _reg("incentiv
 DIST_RANDOM = {"suite": "dist", "trace": "Trace_Distributor", "cfg": "Trace_Distributor.cfg",
                "quick": {"runs": 80, "ops": 60}, "thorough": {"runs": 6000, "ops": 120}, "procs": 6}
 DIST_MULTI = {"suite": "dist", "trace": "Trace_Distributor", "cfg": "Trace_Distributor.cfg", "extra": {"kind": "multi"},
-              "quick": {"runs": 40, "ops": 60}, "thorough": {"runs": 8000, "ops": 120}, "procs": 6}
+              "quick": {"runs": 40, "ops": 60}, "thorough": {"runs": 2500, "ops": 120}, "procs": 6}
 DIST_SCHED = {"suite": "dist", "trace": "Trace_Distributor", "cfg": "Trace_Distributor.cfg", "sched_from": "MC_Distributor_sched",
               "extra": {"mode": "sched"}, "quick": {"runs": 700}, "thorough": {"runs": 0}, "procs": 8}
 MC_DIST = {"module": "MC_Distributor", "quick": "MC_Distributor_quick.cfg", "thorough": "MC_Distributor.cfg", "workers": 6,
